@@ -399,14 +399,17 @@ def check_batch(S, code, words, entries, np, R, tag=None):
         rec.add('mismatches:%s:%s%s' % (cname, name, S.under), len(bad_idx))
         # pre-sort: explained by a known wrong formula?
         explained = np.zeros(len(bad_idx), bool)
-        if arr is not None:
-            wr = np_wrong(code, words[bad_idx], np, R)
-            if wr is not None:
+        wr = np_wrong(code, words[bad_idx], np, R)
+        if wr is not None:
+            if arr is not None:
                 explained = arr[bad_idx] == wr
-        elif code == 70:
-            sw = forms.get('signed')
-            explained = np.array([isinstance(got[i], Raised) and isinstance(got[i].exc, OverflowError) and wl[i] >= 0x80000000
-                                  for i in bad_idx.tolist()], bool)
+            else:
+                nanv = float('nan')
+                gv = np.array([float(got[i]) if type(got[i]) in (int, float) else nanv for i in bad_idx.tolist()], dtype=np.float64)
+                explained = gv == wr
+        if code == 70 and arr is None:
+            explained = explained | np.array([isinstance(got[i], Raised) and isinstance(got[i].exc, OverflowError) and wl[i] >= 0x80000000
+                                              for i in bad_idx.tolist()], bool)
         rec.add('mismatches_matching_a_known_wrong_formula:%s:%s%s' % (cname, name, S.under), int(explained.sum()))
         key = (cname, name)
         order = list(np.nonzero(~explained)[0][:CAP * 3]) + list(np.nonzero(explained)[0][:CAP_KNOWN * 2])
